@@ -215,10 +215,10 @@ class FastFourierTransform(FourierTransform):
         if not input_grid.is_('cartesian'):
             raise ValueError('The input_grid must be Cartesian.')
 
-        if np.any(q < 1):
+        if np.any(np.asarray(q) < 1):
             raise ValueError('The amount of zeropadding (q) must be larger than 1.')
 
-        if np.any(fov < 0):
+        if np.any(np.asarray(fov) < 0):
             raise ValueError('The amount of cropping (fov) must be positive.')
 
         self.input_grid = input_grid
